@@ -67,6 +67,13 @@ def cases(tier, seed):
     plan = [(full, 4, 3500), (shared, 3, 3500)] if tier == "quick" else [(full, 4, 7000), (core, 5, 3500), (shared, 4, 3500)]
     out, seen = [], set()
     for cfgname in ("finite", "forever"):
+        # subscribed and running (settled), then three further calls for the same eventgroup
+        for tail in itertools.product((["sub", "g1", "P"], ["unsub", "g1", "P"]), repeat=3):
+            combo = (["sub", "g1", "P"], ["start"]) + tuple(tail)
+            if _valid(combo):
+                seen.add((cfgname, repr(combo)))
+                out.append({"h": "H14", "cfg": cfgname, "ops": [list(o) for o in combo], "gap": 3500, "_w": 5})
+    for cfgname in ("finite", "forever"):
         for alpha, K, gap in plan:
             for k in range(1, K + 1):
                 for combo in itertools.product(alpha, repeat=k):
